@@ -284,6 +284,14 @@ def applyPlan {α} (blocks : List (List α)) (plan : List (List Piece)) : List (
 def rechunk1d {α} (old new : List Nat) (xs : List α) : Option (List (List α)) :=
   (intersect1d old new).map (applyPlan (splitBy old xs))
 
+/-- a multi-stage plan as `rechunk` executes it: `for c in steps: x = _compute_rechunk(x, c)` along one axis -/
+def runPlan {α} : List Nat → List (List α) → List (List Nat) → Option (List (List α))
+  | _, blocks, [] => some blocks
+  | cur, blocks, nxt :: rest =>
+    match intersect1d cur nxt with
+    | none => none
+    | some pl => runPlan nxt (applyPlan blocks pl) rest
+
 /-! ## planner arithmetic -/
 
 def ceilDiv (a b : Nat) : Nat := (a + b - 1) / b
